@@ -51,9 +51,23 @@ def run(run, binfo):
         target = {k: rng.choice(VALUES) for k in rng.sample(['k', 'k2', 'other'], rng.randint(0, 3))}
         q = rng.choice(['top', 'lower', 'listform', 'nope'])
         dr = rng.random() < 0.3
-        cases.append(base_case(rules=rules, rule=('name', q), creds=creds, target=target, do_raise=dr,
-                               exc=(7 if rng.random() < 0.3 else None),
-                               default=rng.choice([('none',), ('name', 'lower')])))
+        c = base_case(rules=rules, rule=('name', q), creds=creds, target=target, do_raise=dr,
+                      exc=(7 if rng.random() < 0.3 else None),
+                      default=rng.choice([('none',), ('name', 'lower')]))
+        if rng.random() < 0.25:
+            # the other entry point, with the caller's exception class built from positional and keyword arguments
+            c['authorize'] = True
+            c['registered'] = {n: None for n in rules if rng.random() < 0.8}
+            if c['exc'] is not None:
+                c['exc_args'] = ('a1', 2)
+                c['exc_kwargs'] = {'kw': 'v'}
+        cases.append(c)
+    # literals that parse but have no decimal string form (CPython's 4300-digit limit applies to str(), not to hex/octal
+    # input): not evaluable, hence deny
+    for kind in ('0x' + 'f' * 3600, '-0x' + 'f' * 3600, '[0x' + 'f' * 3600 + ']', '0o' + '7' * 4810):
+        for rhs in ('x', '%(k)s'):
+            cases.append(base_case(rules={'big': [[kind + ':' + rhs]]}, rule=('name', 'big'), creds={'roles': []},
+                                   target={'k': 'v'}, do_raise=(rhs == 'x')))
     # registered defaults with scope types whose check string carries placeholders: a scope mismatch
     # must surface as InvalidScope (or False), never as a formatting error
     for cs in ['role:%(wanted)s', 'project_id:%(project_id)s and role:%(k)s', "'x':%(y.z)s", 'role:admin', '%(odd)s:x']:
